@@ -2373,6 +2373,8 @@ def preprocess_file(
                 defs_tmp[def_name] = def_value
             elif (match.group(1) == "undef") and (def_name in defs_tmp):
                 defs_tmp.pop(def_name, None)
+                # A later #define of the same name must not reuse the old body
+                def_regexes.pop(def_name, None)
             log.debug("%s !!! Define statement(%d)", line.strip(), i + 1)
             continue
         # Handle include files
